@@ -283,6 +283,7 @@ func (r *Raft) stateLoop() {
 		state = r.state
 		states[state].init()
 		for r.state == state {
+			verifIdle(r)
 			select {
 			case <-r.close:
 				return
